@@ -33,4 +33,65 @@ theorem keyspace_interval_exact (ks : Keyspace) (hv : ks.valid = true) (x : Byte
       rw [cmp_swap x ks.pfx, this] at h2
       simp [Ordering.swap] at h2
 
+
+/-- every non-empty bucket key handed out is the stripped form of an input key carrying this keyspace's prefix -/
+theorem decodeBucketKeysAux_sound (ks : Keyspace) (all : List Bytes) (n : Nat) :
+    ∀ (rest : List Bytes) (i : Nat) (acc out : List Bytes), (∀ x ∈ rest, x ∈ all) →
+      (∀ o ∈ acc, o ≠ [] → ∃ key ∈ all, memDecode key = .ok (encodeKey ks o)) →
+      decodeBucketKeysAux ks n i rest acc = .ok out →
+      ∀ o ∈ out, o ≠ [] → ∃ key ∈ all, memDecode key = .ok (encodeKey ks o) := by
+  intro rest
+  induction rest with
+  | nil =>
+    intro i acc out _ hacc h
+    simp only [decodeBucketKeysAux, Except.ok.injEq] at h
+    subst h; exact hacc
+  | cons key rest ih =>
+    intro i acc out hsub hacc h
+    have hsub' : ∀ x ∈ rest, x ∈ all := fun x hx => hsub x (by simp [hx])
+    have hacc' : ∀ (extra : Bytes), extra = [] → ∀ o ∈ acc ++ [extra], o ≠ [] → ∃ key ∈ all, memDecode key = .ok (encodeKey ks o) := by
+      intro extra he o ho hne
+      rcases List.mem_append.mp ho with h1 | h1
+      · exact hacc o h1 hne
+      · simp at h1; rw [h1, he] at hne; exact absurd rfl hne
+    unfold decodeBucketKeysAux at h
+    cases hk : (if key.isEmpty then (.ok [] : Except Err Bytes) else memDecode key) with
+    | error e => rw [hk] at h; cases h
+    | ok k =>
+      rw [hk] at h
+      simp only at h
+      split at h
+      · exact ih _ _ _ hsub' (hacc' [] rfl) h
+      · split at h
+        · exact ih _ _ _ hsub' (hacc' [] rfl) h
+        · split at h
+          · rename_i hp
+            by_cases hc : ((k.drop ks.pfx.length).isEmpty && headEmpty acc) = true
+            · rw [if_pos hc] at h
+              exact ih _ _ _ hsub' hacc h
+            · rw [if_neg hc] at h
+              apply ih _ _ _ hsub' _ h
+              intro o ho hne
+              rcases List.mem_append.mp ho with h1 | h1
+              · exact hacc o h1 hne
+              · simp at h1
+                refine ⟨key, hsub key (by simp), ?_⟩
+                have hkey : key.isEmpty = false := by
+                  cases hke : key.isEmpty with
+                  | false => rfl
+                  | true =>
+                    rw [hke] at hk
+                    simp only [if_true, Except.ok.injEq] at hk
+                    subst hk
+                    rw [isPrefix_nil_false] at hp; cases hp
+                rw [hkey] at hk
+                simp only [Bool.false_eq_true, if_false] at hk
+                rw [hk, h1, encodeKey, ← isPrefix_eq_append hp]
+          · exact ih _ _ _ hsub' hacc h
+
+theorem decodeBucketKeys_sound (ks : Keyspace) (keys out : List Bytes) (h : decodeBucketKeys ks keys = .ok out) :
+    ∀ o ∈ out, o ≠ [] → ∃ key ∈ keys, memDecode key = .ok (encodeKey ks o) :=
+  decodeBucketKeysAux_sound ks keys keys.length keys 0 [] out (fun _ h => h) (by simp) h
+
+
 end CGV.ApiV2.Lemmas
